@@ -5,6 +5,7 @@
    CPython and pydantic and is checked end to end (K3 in harness/vh/props/c04.py), not proved. *)
 From Coq Require Import List String Ascii Bool Sorted Permutation.
 From AC Require Import Base.Strs Model.Names Model.Init Model.Package Proofs.NamesP Proofs.InitP Proofs.PackageP.
+From AC Require Gql.Schema Py.Ann Model.Results Proofs.ScopeP.
 Import ListNotations.
 Local Open Scope string_scope.
 
@@ -193,6 +194,109 @@ Proof.
   intros n G K. split; [apply process_valid_identifier | apply process_not_keyword]; assumption.
 Qed.
 Print Assumptions C04_module_names_valid_partial.
+
+(* ---- well_scoped: the contents of the result modules and of the fragments module (Model/Results.v) ----
+   Every class an annotation names is a class of the SAME module (forward references are rebuilt after all
+   classes of the module exist), every enum an annotation names is an enum of the schema (the enums module),
+   every base is BaseModel, a fragment that has a class in the fragments module, or a @mixin import.
+   Guard: the leaf discipline [leaf_disc] (GraphQL's ScalarLeafs rule read by field name: a field selected
+   without sub-selection is of scalar/enum type wherever it is declared, and lookup of String is a scalar). *)
+Module WS.
+  Import Gql.Schema Py.Ann Model.Results Proofs.ScopeP.
+
+  Theorem C04_well_scoped_classes_partial : forall fuel C S frs d cls,
+    result_classes fuel C S frs d = Ok cls ->
+    leaf_disc S frs (match d with DOp _ _ _ sels => sels | DFrag f => fr_sel f end) ->
+    forall c pf n, In c cls -> In pf (c_fields c) -> In n (ann_classes (p_ann pf)) -> In n (map c_name cls).
+  Proof.
+    intros fuel C S frs [kind name mixins sels | f] cls H L; simpl in H.
+    - unfold op_parse in H. destruct (root_type_name S kind) as [tn|m]; simpl in H; [|discriminate].
+      destruct (parse_type_def fuel C S frs [] (pascal_s name) tn sels false mixins None) as [[[o p] k]|m] eqn:E;
+        simpl in H; [|discriminate]. inversion H; subst. eapply ptd_well_scoped; eauto.
+    - destruct (unpack_fragment S f None); [inversion H; subst; intros c pf n []|].
+      destruct (parse_type_def fuel C S frs [] (pascal_s (fr_name f)) (fr_on f) (fr_sel f) false (fr_mixins f) None)
+        as [[[o p] k]|m] eqn:E; simpl in H; [|discriminate]. inversion H; subst. eapply ptd_well_scoped; eauto.
+  Qed.
+
+  Theorem C04_well_scoped_enums : forall fuel C S frs d cls,
+    result_classes fuel C S frs d = Ok cls ->
+    forall c pf e, In c cls -> In pf (c_fields c) -> In e (ann_enums (p_ann pf)) ->
+    exists vs, lookup_type S e = Some (DEnum vs).
+  Proof.
+    intros fuel C S frs [kind name mixins sels | f] cls H; simpl in H.
+    - unfold op_parse in H. destruct (root_type_name S kind) as [tn|m]; simpl in H; [|discriminate].
+      destruct (parse_type_def fuel C S frs [] (pascal_s name) tn sels false mixins None) as [[[o p] k]|m] eqn:E;
+        simpl in H; [|discriminate]. inversion H; subst. eapply ptd_enums_in_schema; eauto.
+    - destruct (unpack_fragment S f None); [inversion H; subst; intros c pf e []|].
+      destruct (parse_type_def fuel C S frs [] (pascal_s (fr_name f)) (fr_on f) (fr_sel f) false (fr_mixins f) None)
+        as [[[o p] k]|m] eqn:E; simpl in H; [|discriminate]. inversion H; subst. eapply ptd_enums_in_schema; eauto.
+  Qed.
+
+  (* c_bases c = (BaseModel | Pascal names of [kept] fragments) ++ @mixin imports, and every fragment used as a
+     base is one the fragments module has a class for (it is not unpacked on its own) *)
+  Theorem C04_well_scoped_bases : forall fuel C S frs d cls,
+    result_classes fuel C S frs d = Ok cls ->
+    forall c, In c cls ->
+    exists ms kept eb, c_bases c = class_bases ms kept eb /\ incl kept ms /\
+      forall n, In n ms -> exists f, lookup_frag frs n = Some f /\ unpack_fragment S f None = false.
+  Proof.
+    intros fuel C S frs [kind name mixins sels | f] cls H; simpl in H.
+    - unfold op_parse in H. destruct (root_type_name S kind) as [tn|m]; simpl in H; [|discriminate].
+      destruct (parse_type_def fuel C S frs [] (pascal_s name) tn sels false mixins None) as [[[o p] k]|m] eqn:E;
+        simpl in H; [|discriminate]. inversion H; subst. eapply ptd_bases; eauto.
+    - destruct (unpack_fragment S f None); [inversion H; subst; intros c []|].
+      destruct (parse_type_def fuel C S frs [] (pascal_s (fr_name f)) (fr_on f) (fr_sel f) false (fr_mixins f) None)
+        as [[[o p] k]|m] eqn:E; simpl in H; [|discriminate]. inversion H; subst. eapply ptd_bases; eauto.
+  Qed.
+  (* non-vacuity: a schema and an operation that meet the guard, with nested classes and an enum *)
+  Definition exS : schema :=
+    {| s_types := [("String", DScalar); ("Int", DScalar); ("Color", DEnum ["RED"]);
+                   ("A", DObject [] [("x", TNamed "Int"); ("c", TNamed "Color"); ("next", TNamed "A")]);
+                   ("Query", DObject [] [("a", TNamed "A"); ("s", TNamed "String")])];
+       s_query := Some "Query"; s_mutation := None; s_subscription := None |}.
+  Definition exSels : list sel :=
+    [SField None "a" false [] (Some [SField None "x" false [] None; SField None "c" false [] None;
+                                     SField None "next" false [] (Some [SField None "c" false [] None])]);
+     SField None "s" false [] None].
+  Ltac ins := repeat match goal with
+    | H : In _ (_ :: _) |- _ => destruct H as [H|H]
+    | H : In _ [] |- _ => destruct H
+    | H : SField _ _ _ _ _ = SField _ _ _ _ _ |- _ => inversion H; subst; clear H
+    | H : _ = _ |- _ => discriminate H
+    end.
+  Ltac leafcase H := unfold schema_field_type, lookup_type in H; simpl in H;
+    repeat match type of H with context [String.eqb ?a ?b] => destruct (String.eqb a b); simpl in H end;
+    try discriminate; inversion H; subst; reflexivity.
+  Ltac occinv H := match goal with O' : occ _ _ _ None |- _ => inversion O'; subst; clear O'; ins; try (leafcase H) end.
+
+  Example C04_well_scoped_guard_satisfiable :
+    leaf_disc exS [] exSels /\
+    option_map (map c_name) (match result_classes 10 {| cf_snake := true; cf_scalars := [] |} exS []
+                                   (DOp "query" "Q" [] exSels) with Ok l => Some l | Err _ => None end)
+      = Some ["Q"; "QA"; "QANext"].
+  Proof.
+    split; [| vm_compute; reflexivity].
+    intros n [->|O] tn t H; [leafcase H|]. unfold exSels in O.
+    occinv H. all: try occinv H. all: try occinv H. all: try occinv H.
+  Qed.
+
+  (* why the guard is there: without it (an object-typed field selected without sub-selection, which GraphQL
+     validation rejects) the annotation names a class nobody generates *)
+  Definition C04_well_scoped_classes_full : Prop := forall fuel C S frs d cls,
+    result_classes fuel C S frs d = Ok cls ->
+    forall c pf n, In c cls -> In pf (c_fields c) -> In n (ann_classes (p_ann pf)) -> In n (map c_name cls).
+
+  Theorem C04_well_scoped_classes_refuted : ~ C04_well_scoped_classes_full.
+  Proof.
+    intro H.
+    specialize (H 10 {| cf_snake := true; cf_scalars := [] |} exS [] (DOp "query" "Q" [] [SField None "a" false [] None])
+                  _ eq_refl _ _ "QA" (or_introl eq_refl) (or_introl eq_refl) (or_introl eq_refl)).
+    simpl in H. destruct H as [H|[]]. discriminate H.
+  Qed.
+End WS.
+Print Assumptions WS.C04_well_scoped_classes_partial.
+Print Assumptions WS.C04_well_scoped_enums.
+Print Assumptions WS.C04_well_scoped_bases.
 
 (* ---- non-vacuity: hypotheses are met by a non-trivial input, every refusal is reachable ---- *)
 Example C04_ok_example : exists p,
